@@ -1,0 +1,12 @@
+//go:build verif
+
+package strategy
+
+// VerifPoint is a schedule point call-back installed by the verification harness (build tag verif only).
+var VerifPoint func(point string)
+
+func verifPoint(point string) {
+	if f := VerifPoint; f != nil {
+		f(point)
+	}
+}
